@@ -6,6 +6,14 @@ BASE = json.load(open("/root/.vp/BASELINE.json"))["cmd"] if os.path.exists("/roo
 
 # pid -> (category, technique, text, note, design_ref)
 CLAIMED = {
+ "C06": ("proof", "Lean 4 theorems over a functional port of libmem (journal invariant by induction through every loop) + regenerated facts + exact trace correspondence",
+         "Proved for every node set, request and state: a failed Allocate and every GetOffer (failed or not) leave the request list (ids, zones, sizes, types - hence usage/free of every node set) and the version exactly as before and close the journal (via the journal invariant `Good`, preserved by every primitive and every loop of overcommit resolution, and `revert_restores`); a successful Allocate/Commit/Release bumps the version by one; an offer whose version differs is refused without any change; Release removes exactly that request. Tied to the code by exact trace correspondence (result + complete state after every operation, incl. free memory of every node subset) and by regenerated facts (which functions call invalidateOffers/cleanupUnusedZones; priority/type tables). The driver also evaluates the C06 predicates on the implementation's own states (stale-offer commits, twins Allocate vs GetOffer+Commit).",
+         "Not proved in Lean (sampled by the twin run): Commit of a fresh offer == Allocate; Realloc failure atomicity (model-compared only). Trusted: kernel, extractor, harness/driver; Go map-order nondeterminism in checkOvercommit's sort is detected per step and such traces are compared on predicates only.",
+         "DESIGN.md §6 C06"),
+ "C07": ("proof", "Lean 4 theorems (usage monotone under superset moves; handled zones fit after successful overcommit handling; literal capacity clause refuted on a witness) + exact trace correspondence + predicates on every state",
+         "Proved: moving an allocation to a superset never increases the usage of any node set; when overcommit handling succeeds every zone of the zone table intersecting the handled nodes fits its capacity; reservations are never eligible for moving (regenerated priority table); the literal capacity clause is refuted on a 3-node witness (known finding C07:union-overcommit). Every other clause (strict types, normal memory, monotone moves, exact updates, all assigned zones fit) is evaluated on every implementation state of the correspondence run, with all 2^n-1 node subsets enumerated.",
+         "Partial: the lift to all assigned zones over whole histories, strict-type confinement and update exactness are sampled (model==code exact on the traces), not proved. Known finding C07:union-overcommit is filtered by class; oversubscription of an assigned zone is still a violation.",
+         "DESIGN.md §6 C07"),
  "C20": ("proof", "Lean 4 theorems over an integer model + regenerated constants + exhaustive correspondence on the property's domain",
          "All five arithmetic clauses are Lean theorems for every input (shares round trip <=1/<=2, exact multiples of 125, quota exact from 10 mCPU, monotonicity, OOM table total and invertible for every capacity >= 1 MiB and every float-estimate behaviour within tolerance). The model is tied to the code by regenerated constants (obligation gen_consts_ok) and by running the real functions on every value of the property's domain (0..256000 mCPU, shares 2..262144) plus sampled OOM tables and estimateResourceRequirements cases; the driver also evaluates the property's predicates on the implementation's own values.",
          "Trusted: Lean kernel (+propext, Classical.choice, Quot.sound), the extractor, harness and driver; float64 == exact round-half-up is checked exhaustively on the domain, sampled outside; OOM table sampled over capacities 2^20..2^50.",
